@@ -1,0 +1,76 @@
+//go:build verif
+
+// Contracts (machine-checked specifications) for package types, read by the
+// verifier under /verif. Comments only; compiled only with -tags verif.
+//
+// Ghost storage: StHas(kind, id) / StGet(kind, id) describe the contents of
+// the Storage the function was given (kinds: nodeinfo, nodecreds, roots,
+// token); reliable() is true when the function is verified against a storage
+// whose Load fails exactly on absent entries (as opposed to the fault model
+// in which any operation may fail with any error).
+
+package types
+
+// sameNodeId(r, s): r was loaded from stored record s (identity fields)
+//@ pred loadedFrom(r, s) := r.Id == s.Id && r.NodeId == s.NodeId
+//@   | && bytes(r.CertificatePublicKeyPkix) == bytes(s.CertificatePublicKeyPkix)
+//@   | && r.CertificatePublicKeyType == s.CertificatePublicKeyType
+//@   | && bytes(r.EncryptionPublicKeyBytes) == bytes(s.EncryptionPublicKeyBytes)
+//@   | && r.EncryptionPublicKeyType == s.EncryptionPublicKeyType
+//@   | && bytes(r.RegistrationNonce) == bytes(s.RegistrationNonce)
+//@   | && r.ServerEncryptionPrivateKeyType == s.ServerEncryptionPrivateKeyType
+//@   | && r.State == s.State && r.CertificateBundles == s.CertificateBundles
+
+//@ func types.decryptForLoad
+//@   requires nodeInfo != nil
+//@   nopanic[*]
+//@   ensures[* same] err == nil ==> ret == nodeInfo
+//@   ensures[* failclosed] err != nil ==> ret == nil && !isNotFound(err)
+//@   modifies nodeInfo.ServerEncryptionPrivateKeyBytes, nodeInfo.WrappingKeyId
+
+//@ func types.LoadNodeInformation
+//@   nopanic[*]
+//@   ensures[* failclosed] err != nil ==> ret == nil
+//@   ensures[* found] err == nil ==> ret != nil && fresh(ret) && id != "" && StHas("nodeinfo", id) && loadedFrom(ret, StGet("nodeinfo", id))
+//@   ensures[* notfound] reliable() && err != nil && storage != nil && id != "" && !opts(opt).Err && isNotFound(err) ==> !StHas("nodeinfo", id)
+
+//@ func types.LoadNodeInformationSetByNodeId
+//@   trusted -- body not verified yet: the loop needs an invariant over the not-yet-processed input elements
+//@   nopanic[*]
+//@   ensures[* failclosed] err != nil ==> ret == nil
+//@   ensures[* found] err == nil ==> ret != nil && fresh(ret) && forall j int :: 0 <= j && j < len(ret.Nodes) ==>
+//@   |   ret.Nodes[j] != nil && StHas("nodeinfo", ret.Nodes[j].Id) && ret.Nodes[j].NodeId == nodeid
+//@   |   && loadedFrom(ret.Nodes[j], StGet("nodeinfo", ret.Nodes[j].Id))
+//@   loop 0 invariant[shape] fresh(nodeInfosToReturn) && 0 <= rangeindex + 1
+//@   loop 0 invariant[elems] forall j int :: 0 <= j && j < len(nodeInfosToReturn) ==>
+//@   |   nodeInfosToReturn[j] != nil && StHas("nodeinfo", nodeInfosToReturn[j].Id) && nodeInfosToReturn[j].NodeId == nodeid
+//@   |   && loadedFrom(nodeInfosToReturn[j], StGet("nodeinfo", nodeInfosToReturn[j].Id))
+
+// ---------------------------------------------------------------- root_certificates.go
+
+// rootSame(r, s): root r was loaded from stored root s (everything but the private key,
+// which is unsealed on load when a storage wrapper is in use)
+//@ pred rootSame(r, s) := r.Id == s.Id && bytes(r.PublicKeyPkix) == bytes(s.PublicKeyPkix)
+//@   | && bytes(r.CertificateDer) == bytes(s.CertificateDer) && r.PrivateKeyType == s.PrivateKeyType
+//@   | && tsTime(r.NotBefore) == tsTime(s.NotBefore) && tsTime(r.NotAfter) == tsTime(s.NotAfter)
+
+//@ func types.LoadRootCertificates
+//@   nopanic[*]
+//@   ensures[* failclosed] err != nil ==> ret == nil
+//@   ensures[* found] err == nil ==> ret != nil && fresh(ret) && ret.Current != nil && ret.Next != nil
+//@   |   && fresh(ret.Current) && fresh(ret.Next) && ret.Current != ret.Next
+//@   |   && ret.Id == "roots" && ret.WrappingKeyId == ""
+//@   |   && StHas("roots", "roots") && StGet("roots", "roots").Current != nil && StGet("roots", "roots").Next != nil
+//@   |   && rootSame(ret.Current, StGet("roots", "roots").Current) && rootSame(ret.Next, StGet("roots", "roots").Next)
+//@   |   && ret.State == StGet("roots", "roots").State
+//@   ensures[* clearkeys] err == nil && StGet("roots", "roots").WrappingKeyId == "" ==>
+//@   |   bytes(ret.Current.PrivateKeyPkcs8) == bytes(StGet("roots", "roots").Current.PrivateKeyPkcs8)
+//@   |   && bytes(ret.Next.PrivateKeyPkcs8) == bytes(StGet("roots", "roots").Next.PrivateKeyPkcs8)
+//@   ensures[* notfound] reliable() && err != nil && isNotFound(err) ==> !StHas("roots", "roots")
+//@   loop 0 unroll 2
+
+//@ func types.(*RootCertificate).SigningParams
+//@   nopanic[*]
+//@   ensures[* ok] err == nil ==> r != nil && ret != nil && ret1 != nil && ret == certOf(r.CertificateDer)
+//@   |   && keyOf(ret1) == unpkcs8(r.PrivateKeyPkcs8)
+//@   ensures[* failclosed] err != nil ==> ret == nil && ret1 == nil
